@@ -717,6 +717,7 @@ class TorControlProtocol(LineOnlyReceiver):
         outstanding = [self.command] + self.commands if self.command else self.commands
         self.command = None
         self.defer = None
+        self.commands = []
         for d, cmd, cmd_arg in outstanding:
             if not d.called:
                 d.errback(
